@@ -438,7 +438,7 @@ pub fn craft_entry_frames(entry: &[u8], mut cursor: usize) -> Vec<u8> {
 
 pub fn next_wal_name(image: &Image) -> String {
     let max = image.files.keys().filter_map(|name| wal_number(name)).max();
-    wal_name(max.map(|number| number + 1).unwrap_or(0))
+    wal_name(max.map(|number| number.saturating_add(1)).unwrap_or(0))
 }
 
 /// A 24-byte, valid UTF-8 file name derived from "wal-<20 digits>" in which the two bytes at `pos`, `pos + 1` are
